@@ -25,11 +25,17 @@ Catalogue == <<
   DD("tap", "tr", Ast("multi_a", 2, <<1, 2, 3>>, <<>>)),
   DD("segwitv0", "wsh", Thresh(2, <<Pk(1), Un("s", Pk(2)), Un("s", Un("n", Un("d", V(Leaf("older", 10)))))>>)),
   \* not sane (a branch without signature): only the malleable finalizers may succeed on some states
-  DD("segwitv0", "wsh", Bin("or_d", Pk(1), Leaf("sha256", 1)))
+  DD("segwitv0", "wsh", Bin("or_d", Pk(1), Leaf("sha256", 1))),
+  \* key-type outputs (the finalizer infers the descriptor from the utxo and the recorded fields)
+  DD("legacy", "pkh", Pk(1)),
+  DD("segwitv0", "wpkh", Pk(2)),
+  DD("segwitv0", "shwpkh", Pk(1)),
+  DD("tap", "trkey", Pk(20))
 >>
 
-Configs == IF Tier = "quick" THEN {<<1, 2>>, <<3, 4>>, <<5, 6>>, <<8, 2>>}
-           ELSE {<<1, 2>>, <<3, 4>>, <<5, 6>>, <<7, 1>>, <<2, 3>>, <<4, 5>>, <<1, 1>>, <<8, 2>>, <<2, 8>>}
+Configs == IF Tier = "quick" THEN {<<1, 2>>, <<3, 4>>, <<5, 6>>, <<8, 2>>, <<9, 10>>, <<11, 12>>}
+           ELSE {<<1, 2>>, <<3, 4>>, <<5, 6>>, <<7, 1>>, <<2, 3>>, <<4, 5>>, <<1, 1>>, <<8, 2>>, <<2, 8>>,
+                 <<9, 10>>, <<11, 12>>, <<10, 1>>, <<12, 9>>, <<2, 12>>}
 
 TxEnvJ == [lock |-> 150, ver |-> 2, seq |-> [final |-> FALSE, dis |-> FALSE, time |-> FALSE, v |-> 15], rules |-> "legacy", std |-> TRUE]
 
